@@ -88,7 +88,8 @@ def step(rng, pool):
     x = pool[int(rng.integers(len(pool)))]
     nd = x.ndim
     op = str(rng.choice(["ew1", "ew2", "index", "reduce", "transpose", "reshape", "concat", "stack", "dot", "convert", "sort", "roll", "flip", "pad",
-                         "bcast", "where", "astype", "triu", "diagonal", "expand", "squeeze", "round", "kron", "tensordot", "unique", "argmax", "nonzero", "dok_assign"]))
+                         "bcast", "where", "astype", "triu", "diagonal", "expand", "squeeze", "round", "kron", "tensordot", "unique", "argmax", "nonzero", "dok_assign",
+                         "create", "create", "like", "diagonalize", "tril", "moveaxis", "take", "matmul", "clip", "isnan", "mean", "cumulative"]))
     coo = x.asformat("coo") if not isinstance(x, sparse.COO) else x
     if op == "dok_assign" and nd and x.size:
         # assigning a value that becomes the fill value only after the cast to the array's dtype must not leave a stored entry
@@ -99,6 +100,55 @@ def step(rng, pool):
             v = float(dk.fill_value) + float(rng.choice([0.4, -0.3, 2.0]))
         dk[key] = v
         return f"dok[{key}]={v}; tocoo", dk.asformat(str(rng.choice(["coo", "gcxs", "dok"])))
+    if op == "create":
+        # creation functions are operations too: their results enter the pool and every later step
+        fmt = str(rng.choice(["coo", "gcxs", "dok"]))
+        which = str(rng.choice(["eye", "eye", "full", "zeros", "ones", "random", "random-nnz", "asarray"]))
+        N, M = int(rng.integers(0, 6)), int(rng.integers(0, 6))
+        if which == "eye":
+            k = int(rng.integers(-6, 7))
+            return f"eye({N},{M},k={k},format={fmt})", sparse.eye(N, M, k=k, format=fmt)
+        shp = (N, M) if rng.random() < 0.6 else (N, 2, M)
+        if which == "full":
+            v = int(rng.choice([0, 3, -1]))
+            return f"full({shp},{v},format={fmt})", sparse.full(shp, v, format=fmt)
+        if which in ("zeros", "ones"):
+            return f"{which}({shp},format={fmt})", getattr(sparse, which)(shp, format=fmt)
+        if which == "random":
+            dens = float(rng.choice([0.0, 0.1, 0.5, 1.0]))
+            return f"random({shp},{dens},format={fmt})", sparse.random(shp, density=dens, format=fmt, random_state=int(rng.integers(1 << 30)),
+                                                                         fill_value=int(rng.choice([0, 0, 2])))
+        if which == "random-nnz":
+            size = int(np.prod(shp))
+            k = int(rng.integers(0, size + 1))
+            return f"random({shp},nnz={k},format={fmt})", sparse.random(shp, nnz=k, format=fmt, random_state=int(rng.integers(1 << 30)))
+        return f"asarray(dense,format={fmt})", sparse.asarray(x.todense(), format=fmt)
+    if op == "like":
+        f = str(rng.choice(["zeros_like", "ones_like", "full_like", "empty_like"]))
+        if f == "full_like":
+            return "full_like(x,3)", sparse.full_like(x, 3)
+        return f"{f}(x)", getattr(sparse, f)(x)
+    if op == "diagonalize" and nd >= 1 and x.fill_value == 0:
+        return "diagonalize(coo)", sparse.diagonalize(coo, axis=int(rng.integers(0, nd)))
+    if op == "tril" and nd >= 2 and x.fill_value == 0:
+        return "tril(coo,k)", sparse.tril(coo, int(rng.integers(-2, 3)))
+    if op == "moveaxis" and nd >= 2 and not isinstance(x, sparse.DOK):
+        a, b = (int(v) for v in rng.integers(-nd, nd, size=2))
+        return f"moveaxis(x,{a},{b})", sparse.moveaxis(x, a, b)
+    if op == "take" and nd and x.size:
+        ax = int(rng.integers(0, nd))
+        ind = rng.integers(0, x.shape[ax], size=int(rng.integers(1, 5)))
+        return f"take(coo,{ind.tolist()},axis={ax})", sparse.take(coo, ind, axis=ax)
+    if op == "matmul" and nd >= 2 and x.fill_value == 0 and not isinstance(x, sparse.DOK):
+        return "matmul(x, x.mT)", sparse.matmul(x, x.mT)
+    if op == "clip":
+        return "clip(x,-1,2)", sparse.clip(x, -1, 2)
+    if op == "isnan":
+        return "isnan(x/0-ish)", sparse.isnan(x.astype(np.float64))
+    if op == "mean" and nd and x.size and not isinstance(x, sparse.DOK):
+        return "x.mean(axis=0)", x.mean(axis=0)
+    if op == "cumulative":
+        return "x*0", x * 0
     if op == "ew1":
         f = rng.choice([np.negative, np.abs, np.sign, np.square, np.sin, np.expm1])
         return f"{f.__name__}(x)", f(x)
@@ -189,8 +239,11 @@ def leg_c(ctx, rng, n):
                 warnings.simplefilter("ignore")
                 try:
                     desc, r = step(rng, pool)
-                except (ValueError, NotImplementedError, TypeError):
+                except (ValueError, NotImplementedError, TypeError, IndexError):
                     continue  # clean rejection of an inapplicable combination is C18's business
+                except Exception as e:  # noqa: BLE001 — an internal error is C18's business too; it must not stop this check
+                    ctx.notes.setdefault("step_internal_errors", []).append(f"{type(e).__name__}: {str(e)[:80]}")
+                    continue
             if desc is None:
                 continue
             trace.append(desc)
